@@ -469,7 +469,11 @@ def run(ctx: Ctx) -> int:
 	with ctx.timed('correspondence'):
 		streams = [stream_infer(ctx), stream_pytype(ctx)]
 	with ctx.timed('search'):
-		searches = [search_witnesses(ctx), search_exprs(ctx), search_programs(ctx), search_typed_programs(ctx)]
+		searches = [search_exprs(ctx), search_programs(ctx), search_typed_programs(ctx), search_witnesses(ctx)]
+	# findings outside the understood failing-input classes first (finish prints at most five VIOLATION lines)
+	from harness.c03_search import UNDERSTOOD
+	for sr in searches:
+		sr.findings.sort(key=lambda fd: fd.key in UNDERSTOOD)
 	return common.finish(ctx, proof, streams, searches, statements=STATEMENTS, partial=PARTIAL, assumptions=ASSUMPTIONS, trusted=TRUSTED,
 		translate_ok=translate_ok, translate_msg=translate_msg)
 
